@@ -13,7 +13,9 @@ def accepts(sql, dialect):
     if dialect not in _parsers:
         _parsers[dialect] = Linter(dialect=dialect)
     parsed = _parsers[dialect].parse_string(sql)
-    return not any(isinstance(e, (SQLLexError, SQLParseError)) for e in parsed.violations)
+    if any(isinstance(e, (SQLLexError, SQLParseError)) for e in parsed.violations):
+        return False
+    return bool(parsed.parsed_variants)      # templating failed: nothing was parsed
 
 
 def tables(sql, dialect="ansi", metadata=None):
